@@ -173,8 +173,12 @@ def _project_archive(order):
         return False, [0] * uni.np, None, []
     arr = [0] * uni.np
     alien = []
-    for name, fp in d["entries"].items():
-        hexd = bytes(fp["blake3"]).hex()
+    try:
+        items = [(name, fp, bytes(fp["blake3"]).hex(), fp.get("ftype")) for name, fp in d["entries"].items()]
+    except Exception:
+        # entries of a shape the real loader does not accept either (a damaged archive that no run has replaced yet)
+        return False, [0] * uni.np, None, []
+    for name, fp, hexd, _ft in items:
         i = uni.name_index.get(name)
         c = uni.by_hex.get(hexd)
         if i is None or c is None or fp.get("ftype") != ("Symlink" if uni.is_link(c) else "File"):
@@ -330,7 +334,7 @@ def explore(copia, uni_blob, seed, root, max_states=None, alt_every=10, dry_ever
 
 
 FAULT_KINDS = ["stale_bak", "absent", "zero", "trunc", "garbage", "wrong_shape", "version0", "version2", "foreign_pair",
-               "other_order_copied", "only_bak", "only_tmp", "no_version", "version_renamed", "version_string", "no_pair", "unknown_ftype", "entry_not_object"]
+               "other_order_copied", "only_bak", "only_tmp", "no_version", "version_renamed", "version_string", "no_pair", "unknown_ftype", "entry_not_object", "trailing"]
 
 
 def fault_state(job):
@@ -385,6 +389,10 @@ def fault_state(job):
         else:
             d["entries"] = {"ghost": {"blake3": [0] * 32, "ftype": "Directory"}} if kind == "unknown_ftype" else {"ghost": 7}
         open(path, "wb").write(json.dumps(d, indent=2).encode())
+    elif kind == "trailing":
+        # a complete, valid document for this pair FOLLOWED by something: the file as a whole is not an archive
+        tail = [b"\nrest of an older, longer archive\"\n  }\n}\n", b"\x00", b"}", raw, b"\n[]", bytes(rng.randrange(1, 256) for _ in range(40)) + b"x"][param % 6]
+        open(path, "wb").write(raw + tail)
     elif kind == "foreign_pair":
         d = json.loads(raw)
         d["root_pair_hash"] = "%064x" % rng.getrandbits(256)
